@@ -16,6 +16,37 @@ from pyvc.values import ObjV, Unsupported, SeqV, SeqT, LitB
 PR = 'dznpy.adv_shell.core.processing'
 
 
+def guarded(ctx, name, fn, *args, **kw):
+    """Runs one group of unbounded contracts.  Code outside the supported subset (or the wall limit) inside THIS group
+    leaves the group undecided - one open obligation, exit 2 unless another part of the check finds a violation - and
+    lets the other parts of the check run."""
+    from pyvc.harness import UNDECIDED
+    try:
+        fn(ctx, *args, **kw)
+    except Unsupported as e:
+        o = ctx.new(f'unbounded:{name}:not-generated', 'ensures', '', f'the unbounded contracts "{name}" could not be '
+                                                                     f'generated from the current sources')
+        ctx.settle(o, UNDECIDED, 'engine', f'unsupported construct / drift: {e}')
+        ctx.notes.append(f'unbounded contracts {name}: {e}')
+
+
+def run_with_composition(ctx, pid, groups):
+    """the bounded composition harness of a generator property, then its groups of unbounded contracts; a part that
+    cannot be generated does not stop the others (a violation found by any part is reported)"""
+    import os
+    from props import gen_props
+    only = os.environ.get('PYVC_SHAPES')
+    pending = None
+    try:
+        gen_props.run_property(ctx, pid, only.split(',') if only else None)
+    except Unsupported as e:
+        pending = e
+    for g in groups:
+        guarded(ctx, g[0], g[1], *g[2:])
+    if pending is not None:
+        raise pending
+
+
 def ns_inv(interp, path, v):
     """class invariant of NamespaceIds (established by its constructor, preserved by + and +=: contracts proved under
     C14): every item is an identifier - an instantiable hypothesis"""
